@@ -4039,7 +4039,8 @@ def gen_PyIdioms(repo):
     L = ["namespace Strengths.Gen.PyIdioms\n",
          "/-- per source file: (kind, normalised text); kinds: `is` (identity comparison with something other than None),\n"
          "`in-literal` (membership test in a string literal of several characters; `in-char`: in a one-character literal), `assert`, `boolop-value` (and/or used as a value with an operand that\n"
-         "is not a comparison), `boolop-of-comparisons` (and/or of comparisons used as a value), `star-dict` -/"]
+         "is not a comparison), `boolop-of-comparisons` (and/or of comparisons used as a value), `star-dict`, `reorder` (sorted / set /\n"
+         "reversed / unique / .sort(): the declared order of species, environments, reactions, cells is the only order the package uses) -/"]
     for rel in PYNUMERIC_FILES:
         src = PySrc(repo, "src/strengths/" + rel)
         parents = {}
@@ -4067,6 +4068,11 @@ def gen_PyIdioms(repo):
             elif isinstance(node, ast.Starred) and isinstance(node.value, ast.Call) and isinstance(node.value.func, ast.Attribute) \
                     and node.value.func.attr in ("values", "keys", "items"):
                 inv.append((node.lineno, node.col_offset, "star-dict", re.sub(r"\s+", "", ast.unparse(node))))
+            elif isinstance(node, ast.Call):
+                fn_ = re.sub(r"\s+", "", ast.unparse(node.func))
+                if fn_ in ("sorted", "set", "frozenset", "reversed", "np.unique", "np.sort", "np.argsort", "numpy.unique", "numpy.sort") \
+                        or fn_.endswith(".sort") or fn_.endswith(".reverse"):
+                    inv.append((node.lineno, node.col_offset, "reorder", re.sub(r"\s+", "", ast.unparse(node))))
         inv.sort()
         L.append("def inv_%s : List (String × String) := %s" % (rel[:-3], lean_list(
             ["(%s, %s)" % (lean_str(k), lean_str(t)) for _, _, k, t in inv])))
